@@ -63,6 +63,16 @@ impl Evaluator {
         }
     }
 
+    /// the four flush cards below the top one: they break ties between two flushes
+    pub fn find_kickers_of_flush(&self, hi: Rank) -> Kickers {
+        let suit = self.find_suit_of_flush().expect("flush suit");
+        let mut rank = u16::from(self.0.of(&suit)) & !u16::from(hi);
+        while 4 < rank.count_ones() as usize {
+            rank = rank & (rank - 1);
+        }
+        Kickers::from(rank)
+    }
+
     ///
 
     fn find_1_oak(&self) -> Option<Ranking> {
